@@ -99,22 +99,22 @@ func c10ViaProgram(c c10Case, base time.Time) (*metrics.Store, []*metrics.Metric
 		for j, cd := range cm.Data {
 			ts := base.Unix() - cd.AgeS
 			if cd.Bumped {
-				v.ProcessLogLine(nil, hx.Line("f", fmt.Sprintf("s%d l%d %d %d", i, j, ts-360000, cd.Val-1)))
+				hx.Run(v, "f", fmt.Sprintf("s%d l%d %d %d", i, j, ts-360000, cd.Val-1))
 			}
-			v.ProcessLogLine(nil, hx.Line("f", fmt.Sprintf("s%d l%d %d %d", i, j, ts, cd.Val)))
+			hx.Run(v, "f", fmt.Sprintf("s%d l%d %d %d", i, j, ts, cd.Val))
 			if cd.ExpNs != 0 && cd.Remark {
 				first := "24h"
 				if cd.ExpNs == int64(24*time.Hour) {
 					first = "1h"
 				}
-				v.ProcessLogLine(nil, hx.Line("f", fmt.Sprintf("e%d %s l%d", i, first, j)))
+				hx.Run(v, "f", fmt.Sprintf("e%d %s l%d", i, first, j))
 			}
 			if cd.ExpNs != 0 {
 				exp := cd.ExpNs
 				if exp == 1 {
 					exp = int64(time.Second)
 				}
-				v.ProcessLogLine(nil, hx.Line("f", fmt.Sprintf("e%d %s l%d", i, durs[exp], j)))
+				hx.Run(v, "f", fmt.Sprintf("e%d %s l%d", i, durs[exp], j))
 			}
 		}
 	}
